@@ -490,8 +490,13 @@ LAST_DICT = {'src': ('dict', 2, 'pickle', 'r', 300), 'ops': []}
 LAST_LIST = {'src': ('list', 2, 'pickle', 'r', 300), 'ops': []}
 
 
-def concat3_operands(kind):
-    return (EMPTY_DICT, LAST_DICT) if kind == 'dict' else (EMPTY_LIST, LAST_LIST)
+def concat3_operands(kind, form='method'):
+    e, l = (EMPTY_DICT, LAST_DICT) if kind == 'dict' else (EMPTY_LIST, LAST_LIST)
+    if form.endswith('empty-last'):
+        return l, e
+    if form.endswith('all-empty'):
+        return e, {'src': (kind, 0, 'pickle', 'ee', 500), 'ops': []}
+    return e, l
 
 
 def run(prog, upto=None):
@@ -510,7 +515,7 @@ def run(prog, upto=None):
             else:
                 operand = run(spec)
         elif op[0] == 'concat3':
-            operand = tuple(run(x) for x in concat3_operands(op[1]))
+            operand = tuple(run(x) for x in concat3_operands(op[1], op[2]))
         elif op[0] in NARY:
             operand = nary_operands(m, op)
         m = apply(m, op, operand)
